@@ -1184,3 +1184,24 @@ Theorem sink_program_exact fr ops ws rs sk' log' :
   rs = map expected_res ops /\
   sbytes log' ++ pend sk' = concat (ok_frames fr ops).
 Proof. intros E Hn. exact (sink_run_exact fr ops sink_init ws [] rs sk' log' E Hn). Qed.
+
+(* ---------------------------------------------------------------------- *)
+(* every public construction path yields the same framer                    *)
+
+Theorem framer_via_new ct s : framer_via ct s = framer_via CNew s.
+Proof. destruct ct, s; reflexivity. Qed.
+
+(* ... and it is the declared one: the delimiter of CharDelimited<C> is the
+   UTF-8 encoding of C whatever the scratch buffer holds *)
+Theorem char_delimited_framer cd : cd_framer cd = AnyDelim (utf8 (cd_char cd)).
+Proof. reflexivity. Qed.
+
+Theorem framer_via_declared ct s :
+  framer_via ct s =
+  match s with
+  | FLen lfl be => LenDelim lfl be
+  | FAny d => AnyDelim d
+  | FChar c => AnyDelim (utf8 c)
+  | FNoop => Noop (nn Consts.NOOP_MAX_SIZE)
+  end.
+Proof. destruct ct, s; reflexivity. Qed.
